@@ -93,16 +93,21 @@ theorem pipelines_well_ordered : ∀ p ∈ pipelines, wellOrdered p.2 = true := 
   decide
 
 /-- What a store path writes: whatever the plugins, modlists and the replication merge do to the
-candidates (`env` is arbitrary), every entry that reaches the backend passed the schema check —
-up to the two attributes `seal` maintains, and up to a class attribute that is not a set of class
-names, which `validate_repl` cannot refuse. -/
-theorem store_path_writes_only_checked {s : Schema} (hs : CidNotRequired s) (env : Env)
+candidates (`env` is arbitrary), every entry that reaches the backend is `Checked`: it passed the
+schema check after the last rewrite and was only sealed afterwards (or, on the replication path
+only, its class attribute is not a set of class names, which `validate_repl` cannot refuse). -/
+theorem store_path_writes_only_checked {s : Schema} (env : Env)
     (hcc : ∀ e ∈ env.conflictCopies, ∃ ecs, classSet e = some ecs ∧ cConflict ∈ ecs)
     (p : String × List Step) (hp : p ∈ pipelines) (cands out : List Entry)
     (hr : runSteps env s p.2 cands [] = .ok out) :
-    ∀ e ∈ out, validate s (stripCid e) = .ok () ∨ ¬ ClassWellTyped e :=
-  runSteps_good hs env (fun e he => good_of_conflict (hcc e he)) p.2 false cands [] out
+    ∀ e ∈ out, Checked s e :=
+  runSteps_checked env (fun e he => checked_of_conflict (hcc e he)) p.2 false cands [] out
     (pipelines_well_ordered p hp) (fun h => by cases h) (fun e he => by cases he) hr
+
+/-- Sealing a validated candidate that carries its two cid attributes keeps it valid. -/
+theorem seal_keeps_valid {s : Schema} {e : Entry} (cid : Nat) (h : validate s e = .ok ())
+    (hc : HasCid e) : validate s (sealEntry cid e) = .ok () :=
+  (validate_ok_iff_conforms _ _).2 (conforms_seal cid ((validate_ok_iff_conforms _ _).1 h) hc)
 
 /-- A refused operation leaves the database as it was. -/
 theorem rejected_leaves_nothing {s : Schema} {db : Db} {o : Op}
@@ -115,32 +120,35 @@ theorem schema_extension_keeps_valid {s s' : Schema} {e : Entry} (hx : SchemaExt
   (validate_ok_iff_conforms s' e).2 (conforms_mono hx ((validate_ok_iff_conforms s e).1 h))
 
 /-- The invariant of the property: over any history of operations through the store paths and of
-schema reloads that only extend, every stored entry passes the schema in force (same two
-qualifications as `store_path_writes_only_checked`). -/
+schema reloads that only extend, every stored entry is `Checked` against the schema in force. -/
 theorem stored_entries_checked (h : List HStep) (s : Schema) (db : Db)
-    (hs : CidNotRequired s) (hdb : ∀ e ∈ db, Good s e) (hok : HistoryOk s h) :
-    ∀ e ∈ (runHistory s db h).2,
-      validate (runHistory s db h).1 (stripCid e) = .ok () ∨ ¬ ClassWellTyped e :=
-  (runHistory_good h s db hs hdb hok).2
+    (hdb : ∀ e ∈ db, Checked s e) (hok : HistoryOk s h) :
+    ∀ e ∈ (runHistory s db h).2, Checked (runHistory s db h).1 e :=
+  runHistory_checked h s db hdb hok
 
-/-- From the stripped form back to the stored entry: it satisfies the schema as soon as its
-`last_modified_cid` / `created_at_cid`, where present, are allowed for it and well formed (they
-are `systemmay` of class `object`, which the Base plugin puts on every entry). -/
-theorem stored_entry_conforms {s : Schema} {e : Entry} (h : validate s (stripCid e) = .ok ())
-    (hcid : ∀ p ∈ e, (p.1 = aLastMod ∨ p.1 = aCreatedAt) →
-      ∃ sa, findAttr s p.1 = some sa ∧ sa.phantom = false ∧ AvaOk sa p.2 ∧
-        ∀ ecs, classSet e = some ecs → cExtensible ∉ ecs → Allowed s ecs p.1) :
-    validate s e = .ok () :=
-  (validate_ok_iff_conforms s e).2 (conforms_unstrip ((validate_ok_iff_conforms _ _).1 h) hcid)
+/-- … hence every stored LIVE entry (class attribute without `conflict` / `recycled`; class
+`object`, which the Base plugin puts on every entry) satisfies the schema in force exactly as
+stored, the two attributes `seal` rewrites included. `SchemaCidFacts`: `object` requires
+`last_modified_cid` and `created_at_cid` and both are cid-typed (true of the shipped schema,
+checked by the harness on every schema it dumps). -/
+theorem stored_live_entries_valid (h : List HStep) (s : Schema) (db : Db)
+    (hdb : ∀ e ∈ db, Checked s e) (hok : HistoryOk s h)
+    (hf : SchemaCidFacts (runHistory s db h).1) :
+    ∀ e ∈ (runHistory s db h).2, ∀ ecs, classSet e = some ecs → cObject ∈ ecs →
+      cConflict ∉ ecs → cRecycled ∉ ecs → validate (runHistory s db h).1 e = .ok () :=
+  fun e he => checked_live_valid hf (runHistory_checked h s db hdb hok e he)
 
 /-- Replication: a merged entry that fails the schema is not refused but becomes a recycled
 conflict entry — it is no longer live, and as a conflict entry it is exempt. -/
-theorem repl_invalid_becomes_conflict {s : Schema} {u : Nat} {e : Entry} {x : SErr}
-    (h : validate s e = .error x) (hwt : ClassWellTyped e) :
+theorem repl_invalid_becomes_conflict {s : Schema} {u : Nat} {e : Entry}
+    (h : validate s e ≠ .ok ()) (hwt : ClassWellTyped e) :
     (∃ ecs, classSet (validateRepl s u e) = some ecs ∧ cConflict ∈ ecs ∧ cRecycled ∈ ecs)
     ∧ validate s (validateRepl s u e) = .ok () := by
-  obtain ⟨ecs, h1, h2, h3⟩ := validateRepl_of_err (u := u) h hwt
-  exact ⟨⟨ecs, h1, h2, h3⟩, (validate_ok_iff_conforms _ _).2 ⟨ecs, h1, Or.inl h2⟩⟩
+  cases hv : validate s e with
+  | ok _ => exact absurd hv h
+  | error x =>
+    obtain ⟨ecs, h1, h2, h3⟩ := validateRepl_of_err (u := u) hv hwt
+    exact ⟨⟨ecs, h1, h2, h3⟩, (validate_ok_iff_conforms _ _).2 ⟨ecs, h1, Or.inl h2⟩⟩
 
 /-- … and a merged entry that passes is stored as it is. -/
 theorem repl_valid_unchanged {s : Schema} {u : Nat} {e : Entry} (h : validate s e = .ok ()) :
@@ -152,16 +160,17 @@ theorem repl_valid_unchanged {s : Schema} {u : Nat} {e : Entry} (h : validate s 
 A reload never revalidates stored entries, so the invariant over *arbitrary* reloads is false. -/
 
 /-- the invariant claimed for histories whose reloads are arbitrary -/
-def stored_entries_checked_full : Prop :=
-  ∀ (s s' : Schema) (db : Db), CidNotRequired s → CidNotRequired s' → (∀ e ∈ db, Good s e) →
-    ∀ e ∈ (runHistory s db [.reload s']).2, Good (runHistory s db [.reload s']).1 e
+def stored_live_entries_valid_full : Prop :=
+  ∀ (s s' : Schema) (db : Db), SchemaCidFacts s' → (∀ e ∈ db, Checked s e) →
+    ∀ e ∈ (runHistory s db [.reload s']).2, ∀ ecs, classSet e = some ecs → cObject ∈ ecs →
+      cConflict ∉ ecs → cRecycled ∉ ecs → validate (runHistory s db [.reload s']).1 e = .ok ()
 
 def demoAttrs : List SAttr :=
   [⟨aClass, synIutf8, true, false⟩, ⟨aUuid, synUuid, false, false⟩,
    ⟨aLastMod, synCid, false, false⟩, ⟨aCreatedAt, synCid, false, false⟩,
    ⟨16, 5, false, false⟩, ⟨17, 6, true, false⟩, ⟨18, 5, false, false⟩]
 
-def demoObject : SClass := ⟨cObject, [aClass, aUuid], [], [aLastMod, aCreatedAt], [], [], [], [], []⟩
+def demoObject : SClass := ⟨cObject, [aClass, aUuid, aLastMod, aCreatedAt], [], [], [], [], [], [], []⟩
 def demoGroup : SClass := ⟨16, [16], [], [17], [18], [], [], [], []⟩
 /-- the same class after an administrator removed `may: 18` -/
 def demoGroupNarrow : SClass := ⟨16, [16], [], [17], [], [], [], [], []⟩
@@ -173,38 +182,54 @@ def demoWide : Schema :=
   ⟨demoAttrs ++ [⟨19, 5, true, false⟩],
    [demoObject, demoGroup, ⟨cRecycled, [], [], [], [], [], [], [], []⟩, ⟨17, [], [], [19], [], [16], [], [], []⟩]⟩
 
+/-- a create request after `assign_cid` -/
 def demoEntry : Entry :=
   [(aClass, ⟨synIutf8, [⟨cObject, true⟩, ⟨16, true⟩]⟩), (aUuid, ⟨synUuid, [⟨100, true⟩]⟩),
+   (aLastMod, ⟨synCid, [⟨9, true⟩]⟩), (aCreatedAt, ⟨synCid, [⟨9, true⟩]⟩),
    (16, ⟨5, [⟨7, true⟩]⟩), (18, ⟨5, [⟨8, true⟩]⟩)]
 
 theorem demo_valid : validate demoSchema demoEntry = .ok () := by rfl
 theorem demo_narrow_invalid :
-    validate demoNarrow (stripCid demoEntry) = .error (.attributeNotValidForClass 18) := by rfl
+    validate demoNarrow demoEntry = .error (.attributeNotValidForClass 18) := by rfl
 
-theorem demo_cidNotRequired : CidNotRequired demoSchema ∧ CidNotRequired demoNarrow := by
-  constructor <;>
-  · intro c sc hsc a ha
-    have hm := List.mem_of_find?_eq_some hsc
-    simp only [demoSchema, demoNarrow, demoObject, demoGroup, demoGroupNarrow, List.mem_cons,
-      List.not_mem_nil, or_false] at hm
-    rcases hm with rfl | rfl | rfl <;> simp at ha <;> rcases ha with rfl | rfl <;> decide
+theorem demo_facts (s : Schema) (hs : s = demoSchema ∨ s = demoNarrow ∨ s.classes.head? = some demoObject ∧ s.attrs.take 7 = demoAttrs) :
+    SchemaCidFacts s := by
+  have hobj : findClass s cObject = some demoObject := by
+    rcases hs with rfl | rfl | ⟨h1, _⟩
+    · rfl
+    · rfl
+    · unfold findClass
+      cases hc : s.classes with
+      | nil => rw [hc] at h1; cases h1
+      | cons x r => rw [hc] at h1; simp at h1; subst h1; rfl
+  refine ⟨⟨demoObject, hobj, Or.inl (by decide), Or.inl (by decide)⟩, ?_⟩
+  intro a sa ha hfa
+  have key : ∀ l : List SAttr, l.take 7 = demoAttrs → ∀ a, (a = aLastMod ∨ a = aCreatedAt) →
+      ∀ sa, l.find? (fun x => x.name == a) = some sa → sa.syn = synCid := by
+    intro l hl a ha sa hfa
+    rw [← List.take_append_drop 7 l, hl, List.find?_append] at hfa
+    rcases ha with rfl | rfl
+    · have : List.find? (fun x => x.name == aLastMod) demoAttrs = some ⟨aLastMod, synCid, false, false⟩ := by rfl
+      rw [this] at hfa; simp at hfa; subst hfa; rfl
+    · have : List.find? (fun x => x.name == aCreatedAt) demoAttrs = some ⟨aCreatedAt, synCid, false, false⟩ := by rfl
+      rw [this] at hfa; simp at hfa; subst hfa; rfl
+  rcases hs with rfl | rfl | ⟨_, h2⟩
+  · exact key demoAttrs rfl a ha sa hfa
+  · exact key demoAttrs rfl a ha sa hfa
+  · exact key s.attrs h2 a ha sa hfa
 
-theorem stored_entries_checked_full_false : ¬ stored_entries_checked_full := by
+theorem stored_live_entries_valid_full_false : ¬ stored_live_entries_valid_full := by
   intro h
-  have hg : ∀ e ∈ [demoEntry], Good demoSchema e := by
+  have hg : ∀ e ∈ [demoEntry], Checked demoSchema e := by
     intro e he
     simp only [List.mem_singleton] at he
     subst he
-    exact good_of_valid demo_cidNotRequired.1 demo_valid
-  have := h demoSchema demoNarrow [demoEntry] demo_cidNotRequired.1 demo_cidNotRequired.2 hg
-    demoEntry (by simp [runHistory])
+    exact .passed demo_valid
+  have := h demoSchema demoNarrow [demoEntry] (demo_facts _ (Or.inr (Or.inl rfl))) hg
+    demoEntry (by simp [runHistory]) [cObject, 16] (by rfl) (by decide) (by decide) (by decide)
   simp only [runHistory] at this
-  rcases this with h1 | h1
-  · rw [demo_narrow_invalid] at h1; cases h1
-  · apply h1
-    intro ava hava
-    have : getAva demoEntry aClass = some ⟨synIutf8, [⟨cObject, true⟩, ⟨16, true⟩]⟩ := by decide
-    rw [this] at hava; cases hava; rfl
+  rw [demo_narrow_invalid] at this
+  cases this
 
 /-! ## Non-vacuity -/
 
@@ -219,10 +244,12 @@ def demoCreate : Op := ⟨(pipelines.lookup "create").getD [], demoEnv, fun _ =>
 example : (applyOp demoSchema [] demoCreate).2 = true := by decide
 example : (applyOp demoSchema [] demoCreate).1 = [sealEntry 9 demoEntry] := by decide
 example : validate demoSchema (sealEntry 9 demoEntry) = .ok () := by rfl
+example : HasCid demoEntry := ⟨⟨_, rfl, rfl⟩, ⟨_, rfl, rfl⟩⟩
 
 /-- an ill-typed request (two values on the single-valued attribute 16) is refused, nothing stored -/
 def demoBad : Entry :=
   [(aClass, ⟨synIutf8, [⟨cObject, true⟩, ⟨16, true⟩]⟩), (aUuid, ⟨synUuid, [⟨101, true⟩]⟩),
+   (aLastMod, ⟨synCid, [⟨9, true⟩]⟩), (aCreatedAt, ⟨synCid, [⟨9, true⟩]⟩),
    (16, ⟨5, [⟨7, true⟩, ⟨8, true⟩]⟩)]
 example : validate demoSchema demoBad = .error (.invalidAttributeSyntax 16) := by rfl
 example : applyOp demoSchema [sealEntry 9 demoEntry]
@@ -232,14 +259,15 @@ example : applyOp demoSchema [sealEntry 9 demoEntry]
 /-- a missing required attribute is refused for a live entry and tolerated for a recycled one -/
 def demoMissing (recycled : Bool) : Entry :=
   [(aClass, ⟨synIutf8, [⟨cObject, true⟩, ⟨16, true⟩] ++ (if recycled then [⟨cRecycled, true⟩] else [])⟩),
-   (aUuid, ⟨synUuid, [⟨102, true⟩]⟩)]
+   (aUuid, ⟨synUuid, [⟨102, true⟩]⟩), (aLastMod, ⟨synCid, [⟨9, true⟩]⟩), (aCreatedAt, ⟨synCid, [⟨9, true⟩]⟩)]
 example : validate demoSchema (demoMissing false) = .error (.missingMustAttribute [16]) := by rfl
 example : validate demoSchema (demoMissing true) = .ok () := by rfl
 
 /-- replication: the merge of two individually valid edits (one side dropped class 16, the other
 set attribute 16) fails the schema and becomes a recycled conflict entry -/
 def demoMerged : Entry :=
-  [(aClass, ⟨synIutf8, [⟨cObject, true⟩]⟩), (aUuid, ⟨synUuid, [⟨103, true⟩]⟩), (16, ⟨5, [⟨7, true⟩]⟩)]
+  [(aClass, ⟨synIutf8, [⟨cObject, true⟩]⟩), (aUuid, ⟨synUuid, [⟨103, true⟩]⟩),
+   (aLastMod, ⟨synCid, [⟨9, true⟩]⟩), (aCreatedAt, ⟨synCid, [⟨9, true⟩]⟩), (16, ⟨5, [⟨7, true⟩]⟩)]
 example : validate demoSchema demoMerged = .error (.attributeNotValidForClass 16) := by rfl
 example : classSet (validateRepl demoSchema 103 demoMerged) = some [cObject, cRecycled, cConflict] := by
   decide
@@ -274,14 +302,10 @@ theorem demo_ext : SchemaExt demoSchema demoWide := by
     · exact Or.inl (Or.inr ha)
     · exact Or.inr ha
 
-theorem demo_wide_cidNotRequired : CidNotRequired demoWide := by
-  intro c sc hsc a ha
-  have hm := List.mem_of_find?_eq_some hsc
-  simp only [demoWide, demoObject, demoGroup, List.mem_cons, List.not_mem_nil, or_false] at hm
-  rcases hm with rfl | rfl | rfl | rfl <;> simp at ha <;> rcases ha with rfl | rfl <;> decide
-
 example : HistoryOk demoSchema [.op demoCreate, .reload demoWide] :=
-  ⟨⟨by decide, fun e he => by cases he⟩, demo_ext, demo_wide_cidNotRequired, trivial⟩
+  ⟨⟨by decide, fun e he => by cases he⟩, demo_ext, trivial⟩
+
+example : SchemaCidFacts demoWide := demo_facts _ (Or.inr (Or.inr ⟨rfl, rfl⟩))
 
 example : (runHistory demoSchema [] [.op demoCreate, .reload demoWide]).2 = [sealEntry 9 demoEntry] := by
   decide
